@@ -113,6 +113,9 @@ pub enum Mode {
     AcceptValid,
     /// kt_start = 0
     HillClimb,
+    /// a negative temperature (kt_start = -1): every valid proposal is accepted, a proposal
+    /// without a score still must not be
+    NegativeT,
 }
 
 pub struct StageResult {
@@ -140,7 +143,11 @@ pub fn run_stage(st: &AnyState, act: &Action, mode: Mode) -> StageResult {
     let cfg = Cfg {
         steps: act.steps.len() as u64,
         inner: act.steps.len() as u64,
-        kt_start: if mode == Mode::AcceptValid { 1e300 } else { 0. },
+        kt_start: match mode {
+            Mode::AcceptValid => 1e300,
+            Mode::HillClimb => 0.,
+            Mode::NegativeT => -1.,
+        },
         kt_finish: None,
         kt_ratio: Some(0.),
         max_step: act.max_step,
@@ -223,12 +230,52 @@ pub fn actions(nbasis: usize) -> Vec<Action> {
     v
 }
 
+/// Long one-directional drifts (start states only): 24 moves of 1/20 of the range of one
+/// parameter in one direction inside a single stage, far enough to cross the whole range.
+pub fn drift_actions(nbasis: usize) -> Vec<Action> {
+    let hi = 1. - 1. / 4503599627370496.0;
+    let mut v = vec![];
+    for i in 0..nbasis {
+        for &q in [0., hi].iter() {
+            v.push(Action { steps: (0..24).map(|_| StageStep { index: i, q }).collect(), max_step: 0.1 });
+        }
+    }
+    v
+}
+
+/// C19 on a real state: the largest change of one parameter a proposal may show.
+fn move_too_big(cdoc: &Value, current: &Value, start: &Value, max_step: f64) -> Option<String> {
+    let (p, c, s) = (params_of_json(cdoc), params_of_json(current), params_of_json(start));
+    let mono = start["cell"]["family"].as_str().unwrap_or("") == "Monoclinic";
+    let items = [
+        ("cell length", p.length, c.length, s.length - 0.01),
+        ("side ratio", p.ratio, c.ratio, s.ratio - 0.1),
+        ("cell angle", p.angle, c.angle, if mono { PI / 2. - PI / 6. } else { 0. }),
+        ("site x", p.x, c.x, 1.),
+        ("site y", p.y, c.y, 1.),
+        ("orientation", p.phi, c.phi, 2. * PI),
+    ];
+    let changed = items.iter().filter(|(_, a, b, _)| a.to_bits() != b.to_bits()).count();
+    if changed > 1 {
+        return Some(format!("a proposal changed {} parameters at once", changed));
+    }
+    for (name, a, b, range) in items.iter() {
+        let bound = max_step * range.abs() / 2. * (1. + 1e-12) + 8. * f64::EPSILON * a.abs().max(b.abs()).max(1.);
+        if (a - b).abs() > bound {
+            return Some(format!("a proposal moved the {} from {} to {}: by {} where max_step_size {} times half the range {} allows {}", name, b, a, (a - b).abs(), max_step, range, max_step * range.abs() / 2.));
+        }
+    }
+    None
+}
+
 #[derive(Default)]
 pub struct Findings {
     pub c01: Vec<(String, Value)>,
     pub c04: Vec<(String, Value)>,
     pub c05: Vec<(String, Value)>,
     pub c08: Vec<(Option<&'static str>, String, Value)>,
+    pub c19: Vec<(String, Value)>,
+    pub moves_measured: u64,
     pub panics: Vec<(String, Value)>,
     pub states: u64,
     pub transitions: u64,
@@ -249,6 +296,8 @@ impl Findings {
         self.c04.extend(o.c04);
         self.c05.extend(o.c05);
         self.c08.extend(o.c08);
+        self.c19.extend(o.c19);
+        self.moves_measured += o.moves_measured;
         self.panics.extend(o.panics);
         self.states += o.states;
         self.transitions += o.transitions;
@@ -269,6 +318,7 @@ pub struct Wants {
     pub c04: bool,
     pub c05: bool,
     pub c08: bool,
+    pub c19: bool,
 }
 
 fn check_ranges(doc: &Value, start: &Value, what: &str) -> Option<String> {
@@ -318,6 +368,61 @@ pub fn explore(group: &str, spec_label: &str, start: &AnyState, depth: usize, ca
     let case = |doc: &Value, path: &Vec<usize>, act: Option<&Action>| {
         json!({"engine": "rsx", "group": group, "shape_label": spec_label, "start": start_doc, "path": path.iter().map(|i| acts[*i].json()).collect::<Vec<_>>(), "state": doc, "action": act.map(|a| a.json())})
     };
+    // start state only: long one-directional drifts, and every action at a negative temperature
+    if wants.c08 || wants.c19 {
+        let st = AnyState::from_json(&start_doc).unwrap_or_else(|e| machinery_error(&e));
+        let drifts = drift_actions(nbasis);
+        let extra: Vec<(&Action, Mode)> = drifts.iter().map(|a| (a, Mode::AcceptValid)).chain(acts.iter().map(|a| (a, Mode::NegativeT))).collect();
+        for (act, mode) in extra {
+            let r = run_stage(&st, act, mode);
+            f.transitions += 1;
+            let xcase = json!({"engine": "rsx", "group": group, "shape_label": spec_label, "start": start_doc, "path": [], "state": start_doc, "action": act.json(), "mode": format!("{:?}", mode)});
+            let mut current: &Value = &start_doc;
+            for (ci, (cdoc, ans)) in r.calls.iter().enumerate() {
+                if ci == 0 {
+                    continue;
+                }
+                f.proposals_seen += 1;
+                if wants.c08 {
+                    if let Some(w) = check_ranges(cdoc, &start_doc, "proposal") {
+                        if f.c08.len() < 3 {
+                            f.c08.push((None, format!("{} {} ({:?}, {} steps): {}", group, spec_label, mode, act.steps.len(), w), xcase.clone()));
+                        }
+                    }
+                }
+                if wants.c19 {
+                    f.moves_measured += 1;
+                    if let Some(w) = move_too_big(cdoc, current, &start_doc, act.max_step) {
+                        if f.c19.len() < 3 {
+                            f.c19.push((format!("{} {} ({:?}, {} steps): {}", group, spec_label, mode, act.steps.len(), w), xcase.clone()));
+                        }
+                    }
+                }
+                if ans.is_some() {
+                    current = cdoc;
+                }
+            }
+            if wants.c08 {
+                match (&r.returned, r.returned_score) {
+                    (Err(msg), _) => {
+                        if f.c08.len() < 3 {
+                            f.c08.push((None, format!("{} {} ({:?}, {} steps): optimisation of a valid state panicked: {}", group, spec_label, mode, act.steps.len(), msg), xcase.clone()));
+                        }
+                    }
+                    (Ok(out), sc) => {
+                        if let Some(w) = check_ranges(out, &start_doc, "returned state") {
+                            if f.c08.len() < 3 {
+                                f.c08.push((None, format!("{} {} ({:?}, {} steps): {}", group, spec_label, mode, act.steps.len(), w), xcase.clone()));
+                            }
+                        }
+                        if !sc.map(|x| x.is_finite()).unwrap_or(false) && f.c08.len() < 3 {
+                            f.c08.push((None, format!("{} {} ({:?}, {} steps): the returned state's score is {:?}, not a finite number", group, spec_label, mode, act.steps.len(), sc), xcase.clone()));
+                        }
+                    }
+                }
+            }
+        }
+    }
     for level in 0..depth {
         let mut next: Vec<(Value, Vec<usize>)> = vec![];
         for (doc, path) in frontier.iter() {
@@ -330,9 +435,22 @@ pub fn explore(group: &str, spec_label: &str, start: &AnyState, depth: usize, ca
                 let r = run_stage(&st, act, Mode::AcceptValid);
                 f.transitions += 1;
                 // every score() call the optimiser made
+                let mut current: &Value = doc;
                 for (ci, (cdoc, ans)) in r.calls.iter().enumerate() {
                     if ci == 0 {
                         continue;
+                    }
+                    if wants.c19 {
+                        f.moves_measured += 1;
+                        if let Some(w) = move_too_big(cdoc, current, doc, act.max_step) {
+                            if f.c19.len() < 3 {
+                                f.c19.push((format!("{} {}: {}", group, spec_label, w), case(doc, path, Some(act))));
+                            }
+                        }
+                        // (every valid proposal is accepted in this mode)
+                        if ans.is_some() {
+                            current = cdoc;
+                        }
                     }
                     f.proposals_seen += 1;
                     if ans.is_some() {
@@ -747,7 +865,7 @@ pub fn replay(case: &Value) -> ! {
 pub fn c08(tier: Tier) -> ! {
     let mut run = Run::new("C08", tier, "model_checking");
     let cfg = Sweep { depth: tier.pick(3, 5), cap: tier.pick(4000, 200_000), dense_steps: 300, shapes: start_shapes(tier) };
-    let wants = Wants { c01: false, c04: false, c05: false, c08: true };
+    let wants = Wants { c01: false, c04: false, c05: false, c08: true, c19: false };
     let (f, starts) = sweep(&cfg, &wants);
     for (k, w, c) in f.c08 {
         run.fail(k, &w, c);
